@@ -38,13 +38,21 @@ class _ConnProxy:
         setattr(self._c, name, value)
 
     def __enter__(self):
-        return self._c.__enter__()
+        self._c.__enter__()
+        return self
 
-    def __exit__(self, *a):
-        return self._c.__exit__(*a)
+    def __exit__(self, exc_type, *a):
+        # leaving a `with connection:` block commits too
+        ret = self._c.__exit__(exc_type, *a)
+        if exc_type is None:
+            self._after_commit()
+        return ret
 
     def commit(self):
         self._c.commit()
+        self._after_commit()
+
+    def _after_commit(self):
         SHIM.commits_seen += 1
         SHIM.count += 1
         if SHIM.target is not None and SHIM.count == SHIM.target:
